@@ -45,6 +45,8 @@ Json gen(sim::Rng& rng, int tier)
             q["path"] = pk < 6 ? "echo" : pk < 8 ? "item" : pk == 8 ? "onlyget" : "nothing";
             q["tag"] = static_cast<long long>(++tag);
             q["body_len"] = (std::string(method) == "POST" || std::string(method) == "PUT") ? static_cast<int>(rng.below(200)) : 0;
+            // now and then a body of several receive buffers, arriving in many segments while other workers are reading too
+            if (q.num("body_len", 0) > 0 && rng.chance(0.12)) q["body_len"] = static_cast<int>(3000 + rng.below(9000));
             q["think_us"] = rng.chance(0.5) ? 0 : static_cast<int>(rng.below(3000));
             reqs.push(q);
         }
@@ -134,7 +136,7 @@ void run(const Json& plan)
     });
 
     auto ep = std::make_unique<Http::Endpoint>(Address("127.0.0.1", Port(port)));
-    ep->init(Http::Endpoint::options().threads(workers));
+    ep->init(Http::Endpoint::options().threads(workers).maxRequestSize(32768));
     ep->setHandler(router->handler());
     shutdown_target = ep.get();
     simk::faults().accept_fail_p = static_cast<double>(std::max<i64>(0, std::min<i64>(900, plan.num("accept_fail_permille", 0)))) / 1000.0;
@@ -186,6 +188,7 @@ void run(const Json& plan)
             s.tag = std::to_string(q.num("tag"));
             s.body = actors::pattern(static_cast<u64>(q.num("tag")), static_cast<size_t>(std::max<i64>(0, q.num("body_len", 0))));
             sent[i].push_back(s);
+            if (s.body.size() > 4096) r.probe("request-larger-than-a-receive-buffer");
             if (q.num("think_us", 0) > 0) steps.push_back(httpw::step(actors::Step::Pause, q.num("think_us") * 1000));
             steps.push_back(httpw::send_step(actors::http_request(s.method, "/" + s.path + "/" + s.tag, { { "Host", "sim" }, { "Connection", "keep-alive" } }, s.body)));
             steps.push_back(httpw::step(actors::Step::Await, 2000LL * 1000000LL, static_cast<int>(k + 1)));
